@@ -130,4 +130,66 @@ Proof.
     + rewrite sget_supd_neq in Hj by auto. eauto.
   - now rewrite supd_upd, upd_length.
 Qed.
+
+(* ---------- access by index (SlotMap::get_by_index) ---------- *)
+Lemma gbi_of_get m k v : sm_get k m = Some v -> get_by_index m (fst k) = Some (k, v).
+Proof.
+  intros H. destruct (sm_get_some_inv _ _ _ H) as (s & Hs & Hg & Hv). unfold get_by_index. rewrite Hs, Hv, Hg. now destruct k.
+Qed.
+Lemma get_of_gbi m i k v : get_by_index m i = Some (k, v) -> fst k = i /\ sm_get k m = Some v.
+Proof.
+  unfold get_by_index, sm_get. destruct (sget (slots m) i) as [s|] eqn:Es; [|discriminate]. destruct (val s) as [v0|] eqn:Ev; [|discriminate].
+  intros H. inversion H; subst. cbn [fst snd]. rewrite Es, N.eqb_refl, Ev. auto.
+Qed.
+Lemma gbi_upd m c (f : V -> V) i :
+  get_by_index (upd_by_index m c f) i = if i =? c then match get_by_index m i with Some (k, v) => Some (k, f v) | None => None end else get_by_index m i.
+Proof.
+  unfold upd_by_index, get_by_index. destruct (i =? c) eqn:E.
+  - apply N.eqb_eq in E. subst i. destruct (sget (slots m) c) as [s|] eqn:Es; [|now rewrite Es].
+    destruct (val s) as [v|] eqn:Ev; [|now rewrite Es, Ev]. cbn [slots]. erewrite sget_supd_eq by eauto. reflexivity.
+  - apply N.eqb_neq in E. destruct (sget (slots m) c) as [s|] eqn:Es; [|reflexivity]. destruct (val s); [|reflexivity].
+    cbn [slots]. now rewrite sget_supd_neq by auto.
+Qed.
+Lemma upd_index_inv m c (f : V -> V) : SmInv m -> SmInv (upd_by_index m c f).
+Proof.
+  intros Hi. destruct (get_by_index m c) as [[k v]|] eqn:E.
+  - destruct (get_of_gbi _ _ _ _ E) as [<- Hg]. eapply upd_inv; eauto.
+  - unfold upd_by_index. unfold get_by_index in E. destruct (sget (slots m) c) as [s|]; [|exact Hi]. destruct (val s); [discriminate|exact Hi].
+Qed.
+Lemma gbi_insert_fresh f m k m' : SmInv m -> insert_with f m = Some (k, m') -> get_by_index m (fst k) = None.
+Proof.
+  intros Hi H. pose proof Hi as ((c & Hc & Hnd) & Hok & Hb). unfold insert_with in H. unfold get_by_index.
+  destruct (sget (slots m) (next_free m)) as [s|] eqn:Es.
+  - inversion H; subst; clear H. cbn [fst]. rewrite Es. destruct (chain_head _ _ _ Hb Hc _ Es) as (rest & -> & Hev & _).
+    now rewrite (vacant_val_none m _ s Hi Es Hev).
+  - destruct (N.of_nat (length (slots m)) =? U32MAX); [discriminate|]. inversion H; subst; clear H. cbn [fst].
+    destruct (sget (slots m) (N.of_nat (length (slots m)))) as [s|] eqn:E; [|reflexivity]. apply sget_lt in E. lia.
+Qed.
+Lemma gbi_insert_new f m k m' : SmInv m -> insert_with f m = Some (k, m') -> get_by_index m' (fst k) = Some (k, f k).
+Proof. intros Hi H. apply gbi_of_get. eapply insert_get_new; eauto. Qed.
+Lemma gbi_insert_old f m k m' i k0 v : SmInv m -> insert_with f m = Some (k, m') -> get_by_index m i = Some (k0, v) -> get_by_index m' i = Some (k0, v).
+Proof.
+  intros Hi H Hg. destruct (get_of_gbi _ _ _ _ Hg) as [<- Hs]. apply gbi_of_get.
+  rewrite (insert_get_other f m k m' k0 Hi H); [exact Hs|]. intros ->. rewrite (insert_get_fresh f m k m' Hi H) in Hs. discriminate.
+Qed.
+Lemma gbi_insert_other f m k m' i : SmInv m -> insert_with f m = Some (k, m') -> i <> fst k -> get_by_index m' i = get_by_index m i.
+Proof.
+  intros Hi H Hne. unfold insert_with in H. unfold get_by_index. destruct (sget (slots m) (next_free m)) as [s|] eqn:Es.
+  - inversion H; subst; clear H. cbn [fst slots] in *. now rewrite sget_supd_neq by auto.
+  - destruct (N.of_nat (length (slots m)) =? U32MAX); [discriminate|]. inversion H; subst; clear H. cbn [fst slots] in *.
+    destruct (sget (slots m) i) as [s|] eqn:E; [now rewrite (sget_app_old _ _ _ _ E)|].
+    destruct (sget (slots m ++ [_]) i) as [s|] eqn:Ea; [|reflexivity]. apply sget_app_inv in Ea as [Ea|[Ei _]]; [congruence|contradiction].
+Qed.
+Lemma gbi_remove_other k m v m' i : sm_remove k m = Some (v, m') -> i <> fst k -> get_by_index m' i = get_by_index m i.
+Proof.
+  unfold sm_remove, get_by_index. destruct (sget (slots m) (fst k)) as [s|] eqn:Es; [|discriminate].
+  destruct (gen s =? snd k); [|discriminate]. destruct (val s) as [v0|]; [|discriminate]. intros H Hne.
+  destruct (wrap_succ (gen s) =? 0); inversion H; subst; cbn [slots]; now rewrite sget_supd_neq by auto.
+Qed.
+Lemma gbi_remove_self k m v m' : sm_remove k m = Some (v, m') -> get_by_index m' (fst k) = None.
+Proof.
+  unfold sm_remove, get_by_index. destruct (sget (slots m) (fst k)) as [s|] eqn:Es; [|discriminate].
+  destruct (gen s =? snd k); [|discriminate]. destruct (val s) as [v0|]; [|discriminate]. intros H.
+  destruct (wrap_succ (gen s) =? 0); inversion H; subst; cbn [slots]; erewrite sget_supd_eq by eauto; reflexivity.
+Qed.
 End G.
